@@ -26,7 +26,7 @@ type FuncReport struct {
 func (e *Engine) newState(decisions []int, fnName string) *State {
 	s := &State{eng: e, heap: map[int]Value{}, fresh: map[string]int{}, decisions: decisions, fnName: fnName,
 		globals: map[*ssa.Global]*Obj{}, closedChans: map[int]bool{}, peekViews: map[int][]*Obj{}, foldSeen: map[int]bool{},
-		mapBaseFn: map[string]func(*Term) Value{}}
+		mapBaseFn: map[string]func(*Term) Value{}, cutLoopAt: -1}
 	return s
 }
 
